@@ -96,7 +96,13 @@ func wiredRemoval(r *vkit.R, id int, g *vkit.Rand) {
 	}).Start()
 	defer gw.Close()
 	name := fmt.Sprintf("w%d.c15.test", id)
-	obj := bed.BuildCluster(bed.ClusterSpec{Name: name, Servers: urlsA})
+	// the gateway's credential for this cluster, unique in the run: reviews carry it, so a review that another history's
+	// gateway sends to a re-bound port of a closed stub is not counted here
+	gwTok := fmt.Sprintf("gwt-c15w-%d-%s", id, name)
+	mine := func(sn bed.Seen) bool {
+		return sn.Header.Get("Authorization") == "Bearer "+gwTok || strings.HasPrefix(sn.ID, fmt.Sprintf("c15w-%d-", id))
+	}
+	obj := bed.BuildCluster(bed.ClusterSpec{Name: name, Servers: urlsA, Token: gwTok})
 	if sr := gw.Apply(obj); sr.Err != nil || sr.Panic != nil || sr.Requeue {
 		r.Inconclusive(fmt.Sprintf("wired history %d: controller did not apply the cluster: %+v", id, sr))
 		return
@@ -134,7 +140,7 @@ func wiredRemoval(r *vkit.R, id int, g *vkit.Rand) {
 		if first < 0 {
 			for si, s := range stubs {
 				for _, sn := range s.SeenAll() {
-					if reviewKind(sn.Path) == "tokenreview" {
+					if mine(sn) && reviewKind(sn.Path) == "tokenreview" {
 						first = si
 					}
 				}
@@ -159,7 +165,7 @@ func wiredRemoval(r *vkit.R, id int, g *vkit.Rand) {
 				rest = append(rest, u)
 			}
 		}
-		sr = gw.Apply(bed.BuildCluster(bed.ClusterSpec{Name: name, Servers: rest}))
+		sr = gw.Apply(bed.BuildCluster(bed.ClusterSpec{Name: name, Servers: rest, Token: gwTok}))
 	}
 	tRemoved := bed.Now()
 	if sr.Err != nil || sr.Panic != nil || sr.Requeue {
@@ -181,6 +187,10 @@ func wiredRemoval(r *vkit.R, id int, g *vkit.Rand) {
 	for si, s := range stubs {
 		removed := kind == "cluster-delete" || si == first
 		for _, sn := range s.SeenAll() {
+			if !mine(sn) {
+				r.Count("observation_stray_requests_from_other_histories", 1)
+				continue
+			}
 			if sn.At <= tRemoved {
 				continue
 			}
